@@ -14,6 +14,9 @@ JIdentityPair(e) ==
        LET d == e.r.dest IN d.hasha # d.hashb /\ d.b32a # d.b32b /\ ~d.b64same /\ d.sera # d.serb, "dest/" \o cls),
      R("C07", "same_bytes_same_hash_and_address", e.r.dest_ok /\ ra.ok /\ rb.ok /\ wireEq,
        LET d == e.r.dest IN d.hasha = d.hashb /\ d.b32a = d.b32b /\ d.b64same, "dest/" \o cls),
+     \* after an in-place change through the exported fields, hash and addresses are those of the bytes the value serialises to now
+     R("C07", "hash_and_addresses_follow_in_place_change", e.r.dest_ok /\ "mut" \in DOMAIN e.r.dest /\ e.r.dest.mut.done /\ e.r.dest.mut.ser_changed,
+       LET m == e.r.dest.mut IN m.hash = m.sha /\ m.b32 = B32Address(m.sha) /\ m.b64 = B64(m.ser), "dest/" \o cls),
      R("C07", "router_identity_equal_iff_bytes_equal", e.r.ri_ok,
        LET d == e.r.ri IN d.eq_ab = (d.sera = d.serb) /\ d.eq_ba = d.eq_ab /\ d.eq_aa /\ (ra.ok /\ rb.ok => d.eq_ab = wireEq), "ri/" \o cls) >>
 =============================================================================
